@@ -15,7 +15,7 @@ func init() { reg("C17", C17) }
 // C17: closed-form oracle for 15-bit colour packing / MulDiv / Luminosity,
 // evaluated exhaustively (thorough) or per channel position (quick).
 func C17(r *vf.Run) {
-	r.Rule = "closed-form oracle computed in int; round-trip over all 2^16 colours and all 2^24 channel triples; MulDiv over every (channel value, multiplicand, divisor) in each channel position (quick) or all 2^16 x 256 x 255 (thorough); a cell is (function, channel position, quotient class {<=31, 32..255, >=256})"
+	r.Rule = "closed-form oracle computed in int; round-trip over all 2^16 colours and all 2^24 channel triples; MulDiv over every (channel value, multiplicand, divisor) in each channel position (quick) or all 2^16 x 256 x 255 (thorough); plus call sequences over few distinct multiplicands/divisors in every order interleaved with recovered zero-divisor calls; a cell is (function, channel position, quotient class {<=31, 32..255, >=256})"
 	r.Assume = []string{"ToRGB/ToColor15/MulDiv/Luminosity are pure functions of their arguments (checked by C18)"}
 
 	if r.Phase("roundtrip") {
@@ -186,7 +186,46 @@ func C17(r *vf.Run) {
 		r.Cell("laws:identity+monotone")
 		r.Sample(map[string]interface{}{"colour": "0x7fff", "mul": 255, "div": 30, "want": "0x7fff"})
 	}
+	if r.Phase("muldiv-hostile-order") {
+		// call order as an input: few distinct multiplicands and divisors, so the same ratio, the same
+		// multiplicand with another divisor and the same divisor with another multiplicand follow each
+		// other in every order, interleaved with zero-divisor calls (which the caller recovers from),
+		// Luminosity, ToRGB and ToColor15 calls; every result is judged by the closed form
+		nseq := r.N(64, 2048)
+		vf.Parallel(1, nseq, func(w, si int) { // one goroutine: the order is the point
+			g := r.Rand("hostile").Fork(uint64(si))
+			var cells [3][3]int64
+			ms := []int{g.Intn(256), g.Intn(256), 1 + g.Intn(8), 255}
+			ds := []int{1 + g.Intn(255), 1 + g.Intn(255), 1 + g.Intn(4), 255}
+			cols := []int{0x7FFF, int(g.U16()), int(g.U16()), 0x0421}
+			zero := 0
+			for k := 0; k < 4000; k++ {
+				c := cols[g.Intn(len(cols))]
+				if g.Intn(4) == 0 {
+					c = int(g.U16())
+				}
+				m := ms[g.Intn(len(ms))]
+				switch g.Intn(8) {
+				case 0:
+					// a zero divisor: outside the property's domain; whatever it does (it panics), later
+					// calls must be unaffected
+					vf.Try(func() { color15.Color(c).MulDiv(uint8(m), 0) })
+					zero++
+				case 1:
+					_ = color15.Color(c).Luminosity()
+					_, _, _ = color15.Color(c).ToRGB()
+				default:
+					check(c, m, ds[g.Intn(len(ds))], &cells)
+				}
+			}
+			r.Eval(4000)
+			merge(&cells)
+			r.CellN("hostile-order:zero-divisor-calls-recovered", int64(zero))
+		})
+		r.Cell("hostile-order:sequences")
+	}
 	if r.OnlyPhase == "" {
+		r.Require("hostile-order:zero-divisor-calls-recovered")
 		r.Require("muldiv:r:q>=256")
 		r.Require("muldiv:b:q32..255")
 	}
